@@ -52,3 +52,13 @@ PROPS["C05"] = {
     "trusted_base": ["Gen/SaveEffects.v regenerated from Document.Save on every run", "RLIMIT_FSIZE with SIGXFSZ ignored as the fault injector (kernel behaviour observed, not modelled)"],
     "assumptions": ["archive/zip reports a failed flush of its buffered writer at the latest from Close (sticky error) - modelled, and exercised by the fault enumeration", "short writes and close(2) errors of network file systems are modelled (fclose_fails) but cannot be injected here"],
 }
+
+PROPS["C07"] = {
+    "n": {"quick": 120, "thorough": 3000},
+    "per_shard": 500,
+    "race": True,
+    "corr_targets": ["Corr/WorldCorr.vo"],
+    "corr": "Corr/WorldCorr.v: the model (local steps) predicts that every document's projection under every plan equals its projection alone; the harness runs each pair of histories in fresh processes (alone, both orders, interleaved, concurrent under -race)",
+    "trusted_base": ["Gen/Globals.v regenerated from the three packages on every run", "Go race detector for memory-level races"],
+    "assumptions": ["the model is at operation granularity; memory-level data races are exhibited only by the race detector on the concurrent plans", "parts are compared in a canonical form (children of the root sorted) because map iteration order decides the order of styles / notes / numbering definitions"],
+}
